@@ -49,7 +49,7 @@ example : (({} : FamState).run (fun _ => 3)
 
 /-- the target of an operation -/
 def target : FOp → Nat
-  | .appendData i _ | .appendComment i _ | .setID i _ | .setType i _ | .setRetry i _ | .clone i | .put i _ => i
+  | .appendData i _ | .appendComment i _ | .setID i _ | .setType i _ | .setRetry i _ | .clone i | .put i _ | .unmarshal i _ => i
 
 /-- at the value level an operation leaves every existing member other than its target alone,
 and `Clone`/`Put` leave their target alone as well -/
@@ -69,6 +69,7 @@ theorem pure_step_frame (ps : PureState) (op : FOp) (j : Nat) (hj : j < ps.fam.l
   | setID i v => rcases hne with h | ⟨_, h⟩ | ⟨_, _, h⟩ <;> first | exact modify i _ h | cases h
   | setType i v => rcases hne with h | ⟨_, h⟩ | ⟨_, _, h⟩ <;> first | exact modify i _ h | cases h
   | setRetry i d => rcases hne with h | ⟨_, h⟩ | ⟨_, _, h⟩ <;> first | exact modify i _ h | cases h
+  | unmarshal i p => rcases hne with h | ⟨_, h⟩ | ⟨_, _, h⟩ <;> first | exact modify i _ h | cases h
   | clone i =>
     simp only [PureState.step]
     split
